@@ -19,8 +19,29 @@ import (
 var quietLogger = slog.New(slog.NewTextHandler(io.Discard, &slog.HandlerOptions{Level: slog.LevelError + 4}))
 
 // newSimClient creates the real client wired to the simulated cluster.
+// envLogKind selects the logger the clients of the current case get: "" = everything discarded unevaluated (the
+// default), "json" / "text" = a slog JSON / text handler at Debug level writing to nowhere - every attribute of every
+// message (the client itself among them) is marshalled for real, in whatever goroutine logs.
+var envLogKind string
+
+func envLogger() *slog.Logger {
+	switch envLogKind {
+	case "json":
+		return slog.New(slog.NewJSONHandler(io.Discard, &slog.HandlerOptions{Level: slog.LevelDebug}))
+	case "text":
+		return slog.New(slog.NewTextHandler(io.Discard, &slog.HandlerOptions{Level: slog.LevelDebug}))
+	}
+	return quietLogger
+}
+
+// withLog sets the logger kind for a case; the returned func restores the default.
+func withLog(kind string) func() {
+	envLogKind = kind
+	return func() { envLogKind = "" }
+}
+
 func newSimClient(c *sim.Cluster, opts ...gohbase.Option) gohbase.Client {
-	all := append([]gohbase.Option{gohbase.RegionDialer(c.Dial), gohbase.Logger(quietLogger)}, opts...)
+	all := append([]gohbase.Option{gohbase.RegionDialer(c.Dial), gohbase.Logger(envLogger())}, opts...)
 	return gohbase.VerifNewClient(c.ZK(), all...)
 }
 
